@@ -109,7 +109,10 @@ impl MachineState {
         };
 
         inner.add_lines_read(num_lines_read);
-        write_term_to_heap(&term, &mut self.heap)
+        let result = write_term_to_heap(&term, &mut self.heap);
+        // the parsed term can be arbitrarily deep: do not let the recursive drop glue run on it
+        crate::parser::ast::drop_term_iteratively(term);
+        result
     }
 }
 
